@@ -4,6 +4,7 @@ import sx, lib, gen_prop
 from framework import Ctx, standard_prologue
 
 MONITORS = {}
+FLOAT_TOL = F(1, 2 ** 18)
 
 
 def monitor(name):
@@ -64,10 +65,12 @@ def mon_c01(sc, obs):
         if op[0] == 7:
             continue
         for i, (l, u) in enumerate(after):
-            if not (l <= hidden[i] <= u):
+            # float32 rounding is not modelled: outside the exact dyadic domain allow a few ulps
+            tol = F(0) if not (lib._inexact([l.numerator, l.denominator]) or lib._inexact([u.numerator, u.denominator])) else FLOAT_TOL
+            if not (l - tol <= hidden[i] <= u + tol):
                 return (f"after op #{n} {op}: bounds of object {i} (kind {kb[i][0]}) contain the interpretation's value {hidden[i]}",
                         f"({l}, {u})", None)
-            if crossed(sx.q(kb[i][2][0]), l, u):
+            if l - u > tol and crossed(sx.q(kb[i][2][0]), l, u):
                 return (f"after op #{n} {op}: object {i} not a contradiction (data is consistent)", f"({l}, {u})", None)
     return None
 
@@ -212,3 +215,251 @@ def c17_engine_part(ctx):
 
 
 CHECKS = {"C01": check_C01, "C05": check_C05, "C13": check_C13}
+
+
+# ====================================================================== C06
+def all_node_ops(kb):
+    ops = []
+    for i, o in enumerate(kb):
+        if o[0] != 0:
+            ops.append([1, i])
+            ops.append([2, i, -1])
+    return ops
+
+
+def gen_c06(ctx, n):
+    rng = ctx.rng("c06")
+    scs, metas = [], []
+    for _ in range(n):
+        weighted = rng.random() < 0.25
+        kb = gen_prop.gen_kb(rng, weighted=weighted)
+        roots = gen_prop.roots_of(rng, kb)
+        kb, roots = gen_prop.restrict(kb, roots)
+        mode = rng.choice(["consistent", "consistent", "free"])
+        data, hidden = gen_prop.gen_data(rng, kb, mode)
+        ops = [[5, -1, 60]] + all_node_ops(kb) + [[5, -1, 60]]
+        scs.append([3, kb, roots, data, ops, hidden or []])
+        metas.append({"mode": mode, "hidden": hidden, "nobj": len(kb), "kinds": sorted(set(o[0] for o in kb)), "weighted": weighted})
+    return scs, metas
+
+
+@monitor("c06_fixpoint")
+def mon_c06(sc, obs):
+    if whole_error(obs):
+        return ("infer() returns", f"raised error class {obs[1]}", None)
+    sts = list(states_of(sc, obs))
+    if not sts or sts[0][3] is None:
+        return ("infer() returns", "raised", None)
+    op0, amt0, before0, after0, raw0 = sts[0]
+    steps0 = raw0[0]
+    if steps0 >= 60:
+        return None  # did not converge within the guard (asymptotic convergence of weighted KBs, D9): outside "exactly representable"
+    last_amt_exact_zero = True
+    for n, (op, amt, before, after, raw) in enumerate(sts[1:], 1):
+        if after is None:
+            return (f"op #{n} {op} completes", "raised", None)
+        if op[0] in (1, 2):
+            if before != after or amt != 0:
+                # tolerate sub-eps asymptotic residue only when the KB is weighted and the movement is below 1e-7
+                tot = sum(abs(a[0] - b[0]) + abs(a[1] - b[1]) for a, b in zip(before, after))
+                if tot <= F(1, 10 ** 7):
+                    continue
+                return (f"after infer() converged in {steps0} steps, node call {op} changes nothing", f"amount {amt}, moved {tot}", None)
+        if op[0] == 5:
+            if raw[0] != 1 or amt > F(1, 10 ** 7) or before != after and amt == 0:
+                return ("second infer() takes 1 step, reports zero, changes nothing", f"steps {raw[0]} amount {amt}", None)
+    return None
+
+
+def check_C06(ctx):
+    st, pr = standard_prologue(ctx)
+    scs, meta = gen_c06(ctx, 300 if ctx.quick else 4000)
+    m, impl, lines = run_k3(ctx, "K4 infer-to-convergence + node-level sweep + second infer", scs, ["c06_fixpoint", "c13_amount"])
+    conv = sum(1 for o in impl[0] if not o.startswith("(-900") and sx.loads(o)[0][0] < 60)
+    ctx.cov["converged_within_guard"] = conv
+    ctx.cov["distribution"] = dist(meta)
+    ctx.assumptions.append("C06_fixpoint_partial needs the last step to report exactly zero (grid-closed KBs); infer() stops at <= 1e-7 (D9, DESIGN.md section 10)")
+    ctx.assumptions.append("first-order / quantified knowledge bases: not in this theorem (propositional engine only)")
+    return ctx.finish("proof", pr, st, rule="K4: random propositional KBs (75% unit-weight, 25% weighted), consistent or free data; ops = infer(max_steps=60 guard), then upward and downward of EVERY non-leaf object, then infer again; "
+                      "monitor: convergence within the guard, every later node call is a no-op, second infer = (1 step, 0); non-trivial = first infer moved a bound")
+
+
+# ====================================================================== C07
+def gen_c07(ctx, n):
+    rng = ctx.rng("c07")
+    scs, metas = [], []
+    for _ in range(n):
+        weighted = rng.random() < 0.2
+        kb = gen_prop.gen_kb(rng, weighted=weighted, nforms=rng.choice([2, 3, 4, 5]))
+        roots = gen_prop.roots_of(rng, kb, extra=0.0)
+        kb, roots = gen_prop.restrict(kb, roots)
+        mode = rng.choice(["consistent", "consistent", "consistent", "free"])
+        data, hidden = gen_prop.gen_data(rng, kb, mode)
+        roots2 = list(roots)
+        rng.shuffle(roots2)
+        ops1 = [[5, -1, 60], [9]]
+        # fair random schedule: rounds of every node op in random order, then a verification sweep
+        ops2 = []
+        base = all_node_ops(kb)
+        for _r in range(rng.choice([6, 8])):
+            rr = list(base)
+            rng.shuffle(rr)
+            if rng.random() < 0.3:
+                rr.insert(rng.randrange(len(rr) + 1), [rng.choice([3, 4]), -1])
+            ops2 += rr
+        nsched = len(ops2)
+        ops2 += base + [[9]]
+        scs.append([4, kb, roots, roots2, data, ops1, ops2, nsched])
+        metas.append({"mode": mode, "hidden": hidden, "nobj": len(kb), "kinds": sorted(set(o[0] for o in kb)), "weighted": weighted})
+    return scs, metas
+
+
+def arrested_py(kb, st, i):
+    o = kb[i]
+    al = sx.q(o[2][0])
+    if crossed(al, *st[i]):
+        return True
+    for j in o[1]:
+        if crossed(sx.q(kb[j][2][0]), *st[j]):
+            return True
+    for j in o[1][:2]:
+        if crossed(al, *st[j]):
+            return True
+    return False
+
+
+@monitor("c07_confluence")
+def mon_c07(sc, obs):
+    if whole_error(obs):
+        return None
+    kb, roots1, roots2, data, ops1, ops2, nsched = sc[1:8]
+    o1, o2 = obs
+    if whole_error(o1) or whole_error(o2):
+        return None
+    sc1 = [3, kb, roots1, data, ops1]
+    sc2 = [3, kb, roots2, data, ops2]
+    s1 = list(states_of(sc1, o1))
+    s2 = list(states_of(sc2, o2))
+    if any(x[3] is None for x in s1) or any(x[3] is None for x in s2):
+        return None
+    steps1 = o1[0][0]
+    if steps1 >= 60:
+        return None
+    fin1 = s1[0][3]
+    clean1 = not any(arrested_py(kb, fin1, i) for i in range(len(kb)) if kb[i][0] != 0) and not any(crossed(sx.q(kb[i][2][0]), *fin1[i]) for i in range(len(kb)))
+    # schedule 2 quiescent? the verification sweep must report zeros
+    sweep = s2[nsched:-1]
+    quiescent = all(x[1] == 0 and x[2] == x[3] for x in sweep)
+    fin2 = s2[-1][3]
+    hc1, hc2 = bool(o1[1][0]), bool(o2[-1][0])
+    if clean1 and quiescent:
+        if fin1 != fin2:
+            d = [(i, fin1[i], fin2[i]) for i in range(len(kb)) if fin1[i] != fin2[i]][0]
+            return (f"infer() under roots {roots1} and a fair node-level schedule under roots {roots2} reach the same bounds", f"object {d[0]}: {d[1]} vs {d[2]}", None)
+        if hc2:
+            return ("contradiction found is order independent (infer: none)", "schedule 2 reports has_contradiction()", None)
+    if clean1:
+        # any state reached by schedule 2 is never tighter than the clean fixpoint
+        for n, x in enumerate(s2):
+            for i, ((l, u), (L, U)) in enumerate(zip(x[3], fin1)):
+                if l > L or u < U:
+                    return (f"state after op #{n} of schedule 2 is not tighter than the contradiction-free fixpoint ({L},{U}) at object {i}", f"({l},{u})", None)
+    return None
+
+
+def check_C07(ctx):
+    st, pr = standard_prologue(ctx)
+    scs, meta = gen_c07(ctx, 250 if ctx.quick else 3000)
+    m, impl, lines = ctx.correspond("K4 pair: infer() vs fair random node-level schedule under permuted roots", scs, per_proc=60,
+                                    nontrivial=lambda s, mo: "((0 1) (1 1))" not in mo[:40])
+    nclean = 0
+    for sc, line, o in zip(scs, lines, impl[0]):
+        r = MONITORS["c07_confluence"](sx.loads(line), sx.loads(o))
+        if r:
+            ctx.violation("c07_confluence", line, 0, r[0], r[1], r[2])
+    ctx.cov["distribution"] = dist(meta)
+    return ctx.finish("proof", pr, st, rule="K4 pairs: same KB and data; run 1 = infer() under one root order, run 2 = 6-8 rounds of every node-level upward/downward in random order (+ occasional model passes) "
+                      "under a shuffled root order, followed by a verification sweep; monitor: when run 1 ends contradiction-free and run 2 is quiescent the bounds are identical, and no state of run 2 is tighter than run 1's fixpoint")
+
+
+# ====================================================================== C20
+def descendants(kb, i):
+    seen = set()
+    todo = [i]
+    while todo:
+        x = todo.pop()
+        if x in seen:
+            continue
+        seen.add(x)
+        todo.extend(kb[x][1])
+    return seen
+
+
+def gen_c20(ctx, n):
+    rng = ctx.rng("c20")
+    scs, metas = [], []
+    for _ in range(n):
+        kb = gen_prop.gen_kb(rng, weighted=rng.random() < 0.3, nforms=rng.choice([3, 4, 5, 6]), twins=0.1)
+        roots = gen_prop.roots_of(rng, kb, extra=0.0)
+        kb, roots = gen_prop.restrict(kb, roots)
+        data, hidden = gen_prop.gen_data(rng, kb, "consistent")
+        nonleaf = [i for i, o in enumerate(kb) if o[0] != 0]
+        ops = []
+        for _k in range(rng.choice([1, 2, 3])):
+            src = rng.choice(nonleaf)
+            t = rng.choice([5, 5, 3, 4])
+            ops.append([5, src, rng.choice([1, 2, 30])] if t == 5 else [t, src])
+        # query part: a query without own data, early exit, then node-level convergence
+        cands = [i for i in nonleaf if not any(d[0] == i for d in data) and not gen_prop.owned(kb, i)]
+        nq = 0
+        if cands and rng.random() < 0.7:
+            q = rng.choice(cands)
+            ops.append([6, q, 0])
+            ops.append([5, rng.choice([-1, q]), 30])
+            nq = len(ops)
+            for _r in range(4):
+                ops += all_node_ops(kb)
+        scs.append([3, kb, roots, data, ops, hidden or [], nq])
+        metas.append({"mode": "consistent", "hidden": hidden, "nobj": len(kb), "kinds": sorted(set(o[0] for o in kb))})
+    return scs, metas
+
+
+@monitor("c20_local")
+def mon_c20(sc, obs):
+    if whole_error(obs):
+        return ("no exception on consistent data", f"raised error class {obs[1]}", None)
+    kb = sc[1]
+    nq = sc[6] if len(sc) > 6 else 0
+    verdict = None
+    for n, (op, amt, before, after, raw) in enumerate(states_of(sc, obs)):
+        if after is None:
+            return (f"op #{n} {op} completes", "raised", None)
+        if op[0] in (3, 4, 5) and op[1] >= 0:
+            desc = descendants(kb, op[1])
+            for i in range(len(kb)):
+                if i not in desc and before[i] != after[i]:
+                    return (f"op #{n} {op}: object {i} is not a sub-formula of source {op[1]} and stays {before[i]}", f"{after[i]}", None)
+        if op[0] == 6:
+            q = op[1]
+        if nq and n == nq - 1:
+            b = after[q]
+            if b in ((F(1), F(1)), (F(0), F(0))):
+                verdict = (q, b)
+        if nq and n >= nq and verdict is not None:
+            if after[verdict[0]] != verdict[1]:
+                return (f"query {verdict[0]} resolved as {verdict[1]} at early exit keeps its verdict under further inference", f"{after[verdict[0]]} after op #{n} {op}", None)
+    return None
+
+
+def check_C20(ctx):
+    st, pr = standard_prologue(ctx)
+    scs, meta = gen_c20(ctx, 400 if ctx.quick else 5000)
+    run_k3(ctx, "K4 source/query-restricted inference", scs, ["c20_local", "c01_sound"])
+    ctx.cov["distribution"] = dist(meta)
+    ctx.cov["with_query"] = sum(1 for s in scs if s[6])
+    ctx.assumptions.append("quantified first-order theories are not in this theorem (propositional engine)")
+    return ctx.finish("proof", pr, st, rule="K4: multi-root propositional KBs with consistent data; 1-3 source-restricted infer/upward/downward calls with random source; then set_query + infer (early exit) + 4 rounds of all node-level calls; "
+                      "monitor: nothing outside the source's sub-formulae moves; a TRUE/FALSE verdict at early exit survives full node-level convergence; hidden interpretation stays inside all bounds")
+
+
+CHECKS.update({"C06": check_C06, "C07": check_C07, "C20": check_C20})
